@@ -96,7 +96,7 @@ func zzDecode(c *zzClient, useAtSend bool) (recs []pack.Pack, okCount bool, okSt
 func ZZ_C16_AppendFlush() {
 	c := &zzClient{retain: zzvf.Choose(2) == 1}
 	maxBuf := zzvf.IntRange(0, 400)
-	maxWait := int64(zzvf.IntRange(0, 10000))
+	maxWait := int64(zzvf.IntRange(1, 10000)) // a waiting time of 0 ms (flush every record) is outside the claim
 	zipMin := zzvf.IntRange(0, 400)
 	s := zzSender(c, maxBuf, maxWait, zipMin)
 	k := 1 + zzvf.Choose(2)
